@@ -3804,8 +3804,32 @@ where
                 message: "Bistellar flips require a PL-manifold (vertex-link validation)",
             });
         }
-        let (tds, kernel) = (&mut self.tri.tds, &self.tri.kernel);
-        repair_delaunay_with_flips_k2_k3(tds, kernel, None, topology)
+        let snapshot = self.tri.tds.clone();
+        let stats = {
+            let (tds, kernel) = (&mut self.tri.tds, &self.tri.kernel);
+            repair_delaunay_with_flips_k2_k3(tds, kernel, None, topology)?
+        };
+        self.restore_orientation_after_repair(snapshot)?;
+        Ok(stats)
+    }
+
+    /// Flip-based repair mutates cell orderings; restore the canonical positive geometric
+    /// orientation (a Level 3 invariant) before exposing the repaired triangulation, exactly as
+    /// the insertion path does. On failure the pre-repair triangulation is restored.
+    fn restore_orientation_after_repair(
+        &mut self,
+        snapshot: Tds<K::Scalar, U, V, D>,
+    ) -> Result<(), DelaunayRepairError>
+    where
+        K::Scalar: ScalarSummable,
+    {
+        if let Err(err) = self.tri.normalize_and_promote_positive_orientation() {
+            self.tri.tds = snapshot;
+            return Err(DelaunayRepairError::PostconditionFailed {
+                message: format!("orientation normalization failed after Delaunay repair: {err}"),
+            });
+        }
+        Ok(())
     }
 
     fn repair_delaunay_with_flips_robust(
@@ -3817,8 +3841,13 @@ where
     {
         let topology = self.tri.topology_guarantee();
         let kernel = RobustKernel::<K::Scalar>::new();
-        let (tds, kernel) = (&mut self.tri.tds, &kernel);
-        repair_delaunay_with_flips_k2_k3(tds, kernel, seed_cells, topology)
+        let snapshot = self.tri.tds.clone();
+        let stats = {
+            let (tds, kernel) = (&mut self.tri.tds, &kernel);
+            repair_delaunay_with_flips_k2_k3(tds, kernel, seed_cells, topology)?
+        };
+        self.restore_orientation_after_repair(snapshot)?;
+        Ok(stats)
     }
 
     fn should_run_delaunay_repair_for(
@@ -5178,6 +5207,12 @@ where
             let (tds, kernel) = (&mut self.tri.tds, &self.tri.kernel);
             if let Err(e) = repair_delaunay_with_flips_k2_k3(tds, kernel, seed_ref, topology) {
                 self.tri.tds = snapshot;
+                return Err(TdsValidationError::InconsistentDataStructure {
+                    message: format!("Delaunay repair failed after vertex removal: {e}"),
+                }
+                .into());
+            }
+            if let Err(e) = self.restore_orientation_after_repair(snapshot) {
                 return Err(TdsValidationError::InconsistentDataStructure {
                     message: format!("Delaunay repair failed after vertex removal: {e}"),
                 }
